@@ -792,6 +792,44 @@ func c09HandDocs() []c09Hand {
 		a.Add(b2)
 		out = append(out, c09Hand{`<a><p:b xmlns:p="urn:1" p:k="1" k="2"/><p:b xmlns:p="urn:2" xmlns:q="urn:1" q:k="3" p:k="4"/></a>`, "a", mk(a)})
 	}
+	{
+		// deep chains of default-namespace declaration, un-declaration and
+		// re-declaration with plain descendants below each stage
+		a := adoc.ENS("urn:u", "", "a")
+		a.Declare("", "urn:u")
+		a1 := adoc.ENS("urn:u", "", "a1")
+		b := adoc.E("b")
+		b.Declare("", "")
+		b1 := adoc.E("b1")
+		c := adoc.ENS("urn:w", "", "c")
+		c.Declare("", "urn:w")
+		d := adoc.ENS("urn:w", "", "d")
+		e := adoc.ENS("urn:w", "", "e")
+		f := adoc.E("f")
+		f.Declare("", "")
+		g := adoc.E("g")
+		f.Add(g)
+		d.Add(e)
+		d.Add(f)
+		c.Add(d)
+		b.Add(b1)
+		b.Add(c)
+		a.Add(a1)
+		a.Add(b)
+		out = append(out, c09Hand{`<a xmlns="urn:u"><a1/><b xmlns=""><b1/><c xmlns="urn:w"><d><e/><f xmlns=""><g/></f></d></c></b></a>`, "a", mk(a)})
+		// the same with a prefix: declared, re-bound below, used by descendants
+		x := adoc.ENS("urn:1", "p", "x")
+		x.Declare("p", "urn:1")
+		y := adoc.ENS("urn:2", "p", "y")
+		y.Declare("p", "urn:2")
+		z := adoc.ENS("urn:2", "p", "z")
+		w := adoc.ENS("urn:2", "p", "w")
+		z.Add(w)
+		y.Add(z)
+		x.Add(adoc.ENS("urn:1", "p", "x1"))
+		x.Add(y)
+		out = append(out, c09Hand{`<p:x xmlns:p="urn:1"><p:x1/><p:y xmlns:p="urn:2"><p:z><p:w/></p:z></p:y></p:x>`, "p:x", mk(x)})
+	}
 	return out
 }
 
